@@ -180,3 +180,26 @@ def wit_d22():
 
 SIGNATURES["D22-C17"] = sig_d22
 WITNESSES["D22-C17"] = wit_d22
+
+
+def sig_d24(info, t):
+    b = _base(t)
+    npol = b.get("np") if isinstance(b, dict) else None
+    return bool(npol) and npol[0] in ("radius", "lsh") and npol[3] is not None and bool(info.get("no_nhood_prob")) \
+        and any(o[0] in ("add", "rem") for o in b.get("ops", []))
+
+def wit_d24():
+    from mabwiser.mab import MAB, LearningPolicy, NeighborhoodPolicy
+    m = MAB([1, 2], LearningPolicy.EpsilonGreedy(0.0), NeighborhoodPolicy.Radius(radius=0.1, no_nhood_prob_of_arm=[0.5, 0.5]), seed=1)
+    m.fit([1, 2, 1, 2], [1, 0, 1, 0], [[0, 0], [0, 1], [1, 0], [1, 1]])
+    if m.predict([[50, 50]]) not in (1, 2):
+        return False
+    m.add_arm(3)
+    try:
+        m.predict([[50, 50]])
+    except ValueError:
+        return True
+    return False
+
+SIGNATURES["D24-C08"] = sig_d24
+WITNESSES["D24-C08"] = wit_d24
